@@ -33,14 +33,14 @@
 ; A hash depends only on the first len bytes of its input (T4), stated in skolemised form so that the
 ; solvers can use it: either the two inputs differ at the witness index inside [0,len), or the outputs agree.
 (declare-fun bdiff ((Array Int Int) (Array Int Int) Int) Int)
-(assert (forall ((k Int) (X (Array Int Int)) (Y (Array Int Int)) (n Int) (q Int))
-  (! (or (and (<= 0 (bdiff X Y n)) (< (bdiff X Y n) n) (not (= (select X (bdiff X Y n)) (select Y (bdiff X Y n)))))
-         (= (shake k X n q) (shake k Y n q)))
-     :pattern ((shake k X n q) (shake k Y n q)))))
-(assert (forall ((X (Array Int Int)) (Y (Array Int Int)) (n Int) (q Int))
-  (! (or (and (<= 0 (bdiff X Y n)) (< (bdiff X Y n) n) (not (= (select X (bdiff X Y n)) (select Y (bdiff X Y n)))))
-         (= (sha256 X n q) (sha256 Y n q)))
-     :pattern ((sha256 X n q) (sha256 Y n q)))))
+(assert (forall ((k Int) (X (Array Int Int)) (Y (Array Int Int)) (n Int) (m Int) (q Int))
+  (! (or (not (= n m)) (and (<= 0 (bdiff X Y n)) (< (bdiff X Y n) n) (not (= (select X (bdiff X Y n)) (select Y (bdiff X Y n)))))
+         (= (shake k X n q) (shake k Y m q)))
+     :pattern ((shake k X n q) (shake k Y m q)))))
+(assert (forall ((X (Array Int Int)) (Y (Array Int Int)) (n Int) (m Int) (q Int))
+  (! (or (not (= n m)) (and (<= 0 (bdiff X Y n)) (< (bdiff X Y n) n) (not (= (select X (bdiff X Y n)) (select Y (bdiff X Y n)))))
+         (= (sha256 X n q) (sha256 Y m q)))
+     :pattern ((sha256 X n q) (sha256 Y m q)))))
 ; extensionality of windows in skolemised form: two windows of equal length are equal as canonical byte strings
 ; unless they differ at the witness position (consequence of the definition of sub and array extensionality)
 (declare-fun subdiff ((Array Int Int) (Array Int Int) Int Int Int) Int)
@@ -68,3 +68,24 @@
 (declare-fun shakeArr (Int (Array Int Int) Int Int) (Array Int Int))
 (assert (forall ((k Int) (A (Array Int Int)) (m Int) (n Int) (i Int))
   (! (= (select (shakeArr k A m n) i) (ite (and (<= 0 i) (< i n)) (shake k A m i) 0)) :pattern ((select (shakeArr k A m n) i)))))
+; ---- XMSS hash constructions (RFC 8391 section 5.1 with the QRL conventions: 32-byte big-endian toByte, hash id
+; 0 = SHA2-256, 1 = SHAKE-128, 2 = SHAKE-256; address = 8 big-endian 32-bit words) ----
+; toByte32(v): v as a 32-byte big-endian string
+(declare-fun toByte32 (Int) (Array Int Int))
+(assert (forall ((v Int) (i Int)) (! (= (select (toByte32 v) i) (ite (and (<= 0 i) (< i 32)) (byte32 v (- 31 i)) 0)) :pattern ((select (toByte32 v) i)))))
+; addrBytes(A): the 8 address words A[0..7] serialised big-endian into 32 bytes
+(declare-fun addrBytes ((Array Int Int)) (Array Int Int))
+(assert (forall ((A (Array Int Int)) (i Int)) (! (= (select (addrBytes A) i) (ite (and (<= 0 i) (< i 32)) (byte32 (select A (div i 4)) (- 3 (mod i 4))) 0)) :pattern ((select (addrBytes A) i)))))
+; xhash(hf, msg, len, q): byte q of the digest of msg[0:len] under hash function id hf (only ids 0..2 are hash functions)
+(define-fun xhash ((hf Int) (A (Array Int Int)) (n Int) (q Int)) Int (ite (= hf 1) (shake 128 A n q) (ite (= hf 2) (shake 256 A n q) (sha256 A n q))))
+; corein(type, key, keyLen, in, inLen): toByte(type,32) || key[0:keyLen] || in[0:inLen]
+(define-fun corein ((ty Int) (K (Array Int Int)) (kl Int) (I (Array Int Int)) (il Int)) (Array Int Int) (cat (cat (toByte32 ty) 32 K kl) (+ 32 kl) I il))
+; xorArr(A, B, n): byte-wise xor of two n-byte strings
+(declare-fun bxor (Int Int) Int)
+(declare-fun xorArr ((Array Int Int) (Array Int Int) Int) (Array Int Int))
+(assert (forall ((A (Array Int Int)) (B (Array Int Int)) (n Int) (i Int)) (! (= (select (xorArr A B n) i) (ite (and (<= 0 i) (< i n)) (bxor (select A i) (select B i)) 0)) :pattern ((select (xorArr A B n) i)))))
+; hashArr(hf, msg, len, n): the first n digest bytes as a canonical string
+(declare-fun hashArr (Int (Array Int Int) Int Int) (Array Int Int))
+(assert (forall ((hf Int) (A (Array Int Int)) (m Int) (n Int) (i Int)) (! (= (select (hashArr hf A m n) i) (ite (and (<= 0 i) (< i n)) (xhash hf A m i) 0)) :pattern ((select (hashArr hf A m n) i)))))
+; PRF(key, in32) = H(toByte(3,32) || key || in32)
+(define-fun prfArr ((hf Int) (K (Array Int Int)) (I (Array Int Int))) (Array Int Int) (hashArr hf (corein 3 K 32 I 32) 96 32))
